@@ -378,11 +378,13 @@ fn copy_step(st: &RState, a: &str, b: &str, mode: &CopyMode, follow: bool) -> Pr
         Res::P(p) => p,
         Res::Stop(x) => return x,
     };
+    if s == d {
+        // copying something onto itself changes nothing; the docs do not say whether a missing
+        // source is still reported in this case
+        return either_unchanged(st, unit());
+    }
     if st.tree.kind(&s) == "missing" {
         return Pred::MustErr { kind: Some("DoesNotExist") };
-    }
-    if s == d {
-        return must(unit(), st.tree.clone(), &st.cwd);
     }
     if follow {
         return Pred::Skip("copy with follow (weaker oracle in C09)");
